@@ -95,135 +95,166 @@ def check(prog: Program, run: Run) -> None:
 
 # ----------------------------------------------------------------------- R1
 def _formulas(prog: Program, run: Run) -> None:
+    """The integer formulas as a decision table: for every (encoding, sign) scenario the value
+    computed on the consistent symbolic paths of the A_INT32 / A_UINT32 branch is compared with
+    the ODX formula. The arrangement of the branches is irrelevant."""
     R = "C02.R1"
+    from . import atomic
     e = prog.func("EncodeState.emplace_atomic_value")
     d = prog.func("DecodeState.extract_atomic_value")
-    V, N = Rat(Poly.atom("v")), None
+    V = Rat(Poly.atom("v"))
+    RW = Rat(Poly.atom("raw"))
     two_n = normalize(ast.parse("1 << bit_length", mode="eval").body)
     half = normalize(ast.parse("1 << (bit_length - 1)", mode="eval").body)
     one = Rat(Poly.const(1))
 
-    def mk_env(body: List[ast.stmt], val: str, sym: Rat):
+    def sym_env(val: str, sym: Rat):
         def env(node: ast.AST):
             if isinstance(node, ast.Name) and node.id == val:
                 return sym
-            if isinstance(node, ast.Name) and node.id in ("mask", "sign_bit"):
-                defs = [x.value for s in body for x in walk_no_nested(s) if isinstance(
-                    x, ast.Assign) and ast.unparse(x.targets[0]) == node.id]
-                if defs:
-                    return normalize(defs[0], env)
-            if isinstance(node, ast.Call) and call_name(node) == "abs" and ast.unparse(
-                    node.args[0]) == val:
+            if isinstance(node, ast.Call) and call_name(node) == "abs" and node.args and \
+                    ast.unparse(node.args[0]) == val:
                 return Rat(Poly.atom("abs(v)"))
+            if isinstance(node, ast.Call) and call_name(node) == "int" and len(
+                    node.args) == 1 and ast.unparse(node.args[0]) == val:
+                return sym  # int(internal_value) after the type was reported
             return None
         return env
-    # ---------------- encoder
-    eb = _enc_branches(_branch(e, "A_INT32"))
-    want_enc = {"ONEC": two_n - one + V, "TWOC": two_n + V, "SM": half + Rat(Poly.atom("abs(v)"))}
-    for enc, want in want_enc.items():
-        key = [k for k in eb if enc in k.split("|")]
-        if not key:
-            run.violation(R, "EncodeState.emplace_atomic_value", f"int32-{enc}-unhandled",
-                          f"A_INT32 with encoding {enc} has no encoder branch", e.loc)
-            continue
-        body = eb[key[0]]
-        ifs = [x for x in body if isinstance(x, ast.If)]
-        if not ifs:
-            raise AnalysisError(f"emplace_atomic_value: A_INT32/{enc}: sign test not found")
-        t = ifs[0]
-        pos_body, neg_body = t.body, t.orelse
-        tn = norm_test(t.test)
-        if tn == norm_test(ast.parse("internal_value >= 0", mode="eval").body):
-            pass
-        elif tn == norm_test(ast.parse("internal_value < 0", mode="eval").body):
-            pos_body, neg_body = neg_body, pos_body
-        else:
-            run.violation(R, "EncodeState.emplace_atomic_value", f"int32-{enc}-sign-test",
-                          f"`{ast.unparse(t.test)}` is not the sign test internal_value >= 0",
-                          f"{e.module.rel}:{t.lineno}", ast.unparse(t.test))
-            continue
+    sides = [
+        ("EncodeState.emplace_atomic_value", e, "internal_value", "raw_value", V,
+         # scenario "non-negative" <=> internal_value >= 0
+         ("v >= 0", "v < 0"),
+         {"ONEC": two_n - one + V, "TWOC": two_n + V, "None": two_n + V,
+          "SM": half + Rat(Poly.atom("abs(v)"))},
+         "a negative value is encoded as", "a non-negative value is encoded as"),
+        ("DecodeState.extract_atomic_value", d, "raw_value", "internal_value", RW,
+         ("raw < H", "raw >= H"),
+         {"ONEC": RW + one - two_n, "TWOC": RW - two_n, "None": RW - two_n, "SM": half - RW},
+         "raw with the sign bit set decodes to", "raw below the sign bit decodes to"),
+    ]
+    for qual, f, val, tgt, sym, (pos_t, neg_t), want_neg, neg_txt, pos_txt in sides:
+        body = atomic.type_branches(f).get("A_INT32")
+        paths = atomic.branch_paths(body) if body else None
+        if paths is None:
+            raise AnalysisError(f"{qual}: A_INT32 branch not found or not loop-free")
+        env_n = sym_env(val, sym)
+        thr = Rat(Poly.const(0)) if val == "internal_value" else half
 
-        def raw_of(b: List[ast.stmt]) -> Optional[Rat]:
-            a = [x for s in b for x in walk_no_nested(s) if isinstance(x, ast.Assign) and
-                 ast.unparse(x.targets[0]) == "raw_value"]
-            if not a:
-                return None
-            return normalize(a[-1].value, mk_env(b, "internal_value", V))
-        rp, rn = raw_of(pos_body), raw_of(neg_body)
-        where = f"{e.module.rel}:{t.lineno}"
-        if rp is not None and rp.same(V):
-            run.ok(R, "EncodeState.emplace_atomic_value", f"A_INT32/{enc}: v >= 0 -> raw = v",
-                   where)
-        else:
-            run.violation(R, "EncodeState.emplace_atomic_value", f"int32-{enc}-nonnegative",
-                          f"A_INT32/{enc}: a non-negative value is encoded as "
-                          f"`{rp.key() if rp else None}`, not as itself", where)
-        if rn is not None and rn.same(want):
-            run.ok(R, "EncodeState.emplace_atomic_value",
-                   f"A_INT32/{enc}: v < 0 -> raw = {want.key()}", where)
-        else:
-            run.violation(R, "EncodeState.emplace_atomic_value", f"int32-{enc}-negative",
-                          f"A_INT32/{enc}: a negative value is encoded as "
-                          f"`{rn.key() if rn else None}`; ODX: `{want.key()}` (n = bit_length)",
-                          where)
-    # ---------------- decoder
-    RW = Rat(Poly.atom("raw"))
-    db = _enc_branches(_branch(d, "A_INT32"))
-    want_dec = {"ONEC": RW + one - two_n, "TWOC": RW - two_n, "SM": half - RW}
-    for enc, want in want_dec.items():
-        key = [k for k in db if enc in k.split("|")]
-        if not key:
-            run.violation(R, "DecodeState.extract_atomic_value", f"int32-{enc}-unhandled",
-                          f"A_INT32 with encoding {enc} has no decoder branch", d.loc)
-            continue
-        body = db[key[0]]
-        ifs = [x for x in body if isinstance(x, ast.If)]
-        if not ifs:
-            raise AnalysisError(f"extract_atomic_value: A_INT32/{enc}: sign test not found")
-        t = ifs[0]
-        env = mk_env(body, "raw_value", RW)
-        tn = norm_test(t.test, env)
-        want_t = norm_test(ast.parse("raw < H", mode="eval").body,
-                           lambda n: RW if isinstance(n, ast.Name) and n.id == "raw" else (
-                               half if isinstance(n, ast.Name) and n.id == "H" else None))
-        pos_body, neg_body = t.body, t.orelse
-        where = f"{d.module.rel}:{t.lineno}"
-        if tn != want_t:
-            want_f = norm_test(ast.parse("raw >= H", mode="eval").body,
-                               lambda n: RW if isinstance(n, ast.Name) and n.id == "raw" else (
-                                   half if isinstance(n, ast.Name) and n.id == "H" else None))
-            if tn == want_f:
-                pos_body, neg_body = neg_body, pos_body
-            else:
-                run.violation(R, "DecodeState.extract_atomic_value", f"int32-{enc}-sign-test",
-                              f"A_INT32/{enc}: the sign test is `{ast.unparse(t.test)}`; a raw "
-                              "value is non-negative iff raw < 2^(n-1) (the bit pattern 100...0 "
-                              "is the most negative value)", where, ast.unparse(t.test))
-                continue
-
-        def val_of(b: List[ast.stmt]) -> Optional[Rat]:
-            a = [x for s in b for x in walk_no_nested(s) if isinstance(x, ast.Assign) and
-                 ast.unparse(x.targets[0]) == "internal_value"]
-            if not a:
-                return None
-            return normalize(a[-1].value, env)
-        vp, vn = val_of(pos_body), val_of(neg_body)
-        if vp is not None and vp.same(RW):
-            run.ok(R, "DecodeState.extract_atomic_value", f"A_INT32/{enc}: raw < 2^(n-1) -> raw",
-                   where)
-        else:
-            run.violation(R, "DecodeState.extract_atomic_value", f"int32-{enc}-nonnegative",
-                          f"A_INT32/{enc}: raw below the sign bit decodes to "
-                          f"`{vp.key() if vp else None}`", where)
-        if vn is not None and vn.same(want):
-            run.ok(R, "DecodeState.extract_atomic_value",
-                   f"A_INT32/{enc}: raw >= 2^(n-1) -> {want.key()}", where)
-        else:
-            run.violation(R, "DecodeState.extract_atomic_value", f"int32-{enc}-negative",
-                          f"A_INT32/{enc}: raw with the sign bit set decodes to "
-                          f"`{vn.key() if vn else None}`; ODX: `{want.key()}`", where)
+        def tenv(n, sym=sym):
+            if isinstance(n, ast.Name) and n.id in ("v", "raw"):
+                return sym
+            if isinstance(n, ast.Name) and n.id == "H":
+                return half
+            return None
+        want_pos = norm_test(ast.parse(pos_t, mode="eval").body, tenv)
+        want_negt = norm_test(ast.parse(neg_t, mode="eval").body, tenv)
+        for enc in ("ONEC", "TWOC", "None", "SM"):
+            unknown_sign: List[str] = []
+            for nonneg in (True, False):
+                def leaf(t: ast.AST, nonneg=nonneg):
+                    if isinstance(t, ast.Compare) and len(t.ops) == 1 and any(
+                            isinstance(n, ast.Name) and n.id == val for n in ast.walk(t)) and \
+                            isinstance(t.ops[0], (ast.Lt, ast.LtE, ast.Gt, ast.GtE)):
+                        k = norm_test(t, env_n)
+                        if k == want_pos:
+                            return nonneg
+                        if k == want_negt:
+                            return not nonneg
+                        # a comparison of the value with the sign threshold, but not the
+                        # sign test (other comparisons, e.g. the range check, are no sign tests)
+                        diff = normalize(t.left, env_n) - normalize(t.comparators[0], env_n)
+                        if diff.same(sym - thr) or diff.same(thr - sym):
+                            unknown_sign.append(ast.unparse(t))
+                    if isinstance(t, ast.Call) and call_name(t) == "isinstance" and t.args and \
+                            ast.unparse(t.args[0]) == val:
+                        return True  # the value has the expected type
+                    return None
+                scen = {"base_type_encoding": None if enc == "None" else f"Encoding.{enc}"}
+                cons = atomic.scenario(paths, scen, leaf)
+                label = f"A_INT32/{enc if enc != 'None' else 'no encoding'}"
+                if unknown_sign:
+                    break
+                cons = [p for p in cons
+                        if not any(atomic.is_report(st, scen, leaf) for st in p.trace)]
+                if not cons:
+                    run.violation(R, qual, f"int32-{enc}-unhandled",
+                                  f"{label} is not processed without an error", f.loc)
+                    continue
+                got = {normalize(atomic.select(p.env[tgt], scen, leaf), env_n).key()
+                       if tgt in p.env else "unassigned" for p in cons}
+                want = sym if nonneg else want_neg[enc]
+                if got == {want.key()}:
+                    run.ok(R, qual, f"{label}: {'non-negative' if nonneg else 'negative'} -> "
+                           f"{want.key()}", f.loc)
+                else:
+                    run.violation(R, qual,
+                                  f"int32-{enc}-{'nonnegative' if nonneg else 'negative'}",
+                                  f"{label}: {pos_txt if nonneg else neg_txt} "
+                                  f"`{', '.join(sorted(got))}`; ODX: `{want.key()}` "
+                                  "(n = bit_length)", f.loc)
+            if unknown_sign:
+                run.violation(R, qual, f"int32-{enc}-sign-test",
+                              f"A_INT32/{enc}: the sign test is `{unknown_sign[0]}`; "
+                              + ("a raw value is non-negative iff raw < 2^(n-1) (the bit pattern "
+                                 "100...0 is the most negative value)" if val == "raw_value" else
+                                 "it must be internal_value >= 0"), f.loc, unknown_sign[0])
     # unsigned: NONE -> identity, BCD -> helper (both sides)
     for f, val, tgt in ((e, "internal_value", "raw_value"), (d, "raw_value", "internal_value")):
+        body = atomic.type_branches(f).get("A_UINT32")
+        paths = atomic.branch_paths(body) if body else None
+        if paths is None:
+            _formulas_uint_syntactic(run, R, f, val, tgt)
+            continue
+
+        def leaf_u(t: ast.AST, val=val):
+            if isinstance(t, ast.Call) and call_name(t) == "isinstance" and t.args and \
+                    ast.unparse(t.args[0]) == val:
+                return True
+            return None
+        for enc, helper in (("BCD_P", "bcd_p"), ("BCD_UP", "bcd_up"), ("NONE", None),
+                            ("None", None)):
+            scen = {"base_type_encoding": None if enc == "None" else f"Encoding.{enc}"}
+            cons = [p for p in atomic.scenario(paths, scen, leaf_u)
+                    if not any(atomic.is_report(st, scen, leaf_u) for st in p.trace)]
+            if not cons:
+                run.violation(R, f.qual, f"uint32-{enc}-unhandled",
+                              f"A_UINT32 with encoding {enc} has no branch", f.loc)
+                continue
+            bad = None
+            for p in cons:
+                v = atomic.select(p.env.get(tgt), scen, leaf_u)
+                while isinstance(v, ast.Call) and call_name(v) == "int" and len(v.args) == 1:
+                    v = v.args[0]
+                if helper is None:
+                    ok = v is not None and ast.unparse(v) == val
+                elif isinstance(v, ast.Call) and call_name(v) == "__loop__":
+                    # the digit loop written in place (or an inlined helper): recognised by its
+                    # operators; the width per digit is checked by _bcd
+                    lps = [x for x in ast.walk(f.node) if isinstance(x, ast.While) and
+                           x.lineno == v.args[0].value]
+                    ok = bool(lps) and _bcd_loop(lps[0]) is not None
+                else:
+                    # `__encode_bcd_p(x)` or one parametrised helper `__encode_bcd(x, bits=4)`:
+                    # the width per digit is checked by _bcd
+                    ok = isinstance(v, ast.Call) and "bcd" in (call_name(v) or "") and v.args \
+                        and ast.unparse(v.args[0]) in (val, f"int({val})") and (
+                            helper in (call_name(v) or "") or not (call_name(v) or "").endswith(
+                                ("_p", "_up")))
+                if not ok:
+                    bad = ast.unparse(v) if v is not None else "unassigned"
+            if bad is None:
+                run.ok(R, f.qual, f"A_UINT32/{enc}: {tgt} = "
+                       f"{val if helper is None else helper + '(' + val + ')'}", f.loc)
+            else:
+                run.violation(R, f.qual, f"uint32-{enc}",
+                              f"A_UINT32/{enc}: `{tgt} = {bad}` is not "
+                              f"{'the value itself' if helper is None else 'the ' + helper + ' conversion of ' + val}",
+                              f.loc)
+
+
+def _formulas_uint_syntactic(run: Run, R: str, f: FuncInfo, val: str, tgt: str) -> None:
+    """fallback when the A_UINT32 branch contains the BCD digit loops in place"""
+    if True:
         ub = _enc_branches(_branch(f, "A_UINT32"))
         for enc, helper in (("BCD_P", "bcd_p"), ("BCD_UP", "bcd_up"), ("NONE", None)):
             key = [k for k in ub if enc in k.split("|")]
@@ -237,8 +268,6 @@ def _formulas(prog: Program, run: Run) -> None:
             ok = (helper is None and s == val) or (helper is not None and helper in s and
                                                    s.endswith(f"({val})"))
             if not ok and helper is not None:
-                # one parametrised helper (`__encode_bcd(value, bits_per_digit=4)`) or the digit
-                # loop written in place: the width per digit is checked by _bcd
                 call_ok = bool(a) and isinstance(a[-1].value, ast.Call) and "bcd" in (
                     call_name(a[-1].value) or "") and a[-1].value.args and ast.unparse(
                         a[-1].value.args[0]) == val
